@@ -109,6 +109,9 @@ func (e *Explorer) strEvals(term string) {
 
 // PathResult describes one explored path.
 type PathResult struct {
+	// Dirty: some check of the path (of ANY property) did not simply pass (deviation, violation,
+	// unknown): such a path is not sampled as a native twin of another property's unit
+	Dirty bool `json:"-"`
 	Script    []int             `json:"script"`
 	Outcome   string            `json:"outcome"` // ok | panic | unsupported | infeasible | bound
 	Msg       string            `json:"msg,omitempty"`
